@@ -456,6 +456,25 @@ theorem C11_translated_init_eq_model (hm : MungeIs sch P fnRec cm cv) (cl : Opti
           distinct := truthyOpt d kDistinct } :=
   ⟨init_translated sr sch P fnRec cm cv hm cl ct hct d o conn dbn ho hl hgc hdb, initOps_rep sr sch cl d o⟩
 
+/-- `__init__` as translated on the TEXT of a keyword clause (what `selectBy` passes): the text is GROUPED —
+    `SQLConstant('(' + text + ')')`, the image of `.kw conds` — so that a later `filter()` cannot capture its last operand;
+    the object represents the select over `.kw conds`. -/
+theorem C11_translated_init_text_eq_model (hm : MungeIs sch P fnRec cm cv) (c0 : Cond) (cs : List Cond) (ct : PyQ.Val)
+    (hct : truthy ct = false) (d : List (Str × PyQ.Val)) (o : OrderBy) (conn dbn : PyQ.Val)
+    (ho : aget kOrderBy (opsDefault sch d) = some (OrderBy.toVal sch o))
+    (hl : truthy ((aget kLimit (initOps sch d o)).getD .none) = false)
+    (hgc : cm (.obj "SelectResults" [("sourceClass", clsV), ("clause", clauseV sr sch (.kw (c0 :: cs))),
+      ("ops", .dict (initOps sch d o))]) "_getConnection" [] [] = .ok conn)
+    (hdb : attrOf (qIface sch P fnRec cm cv) conn "dbName" = .ok dbn) :
+    initX (qIface sch P fnRec cm cv) clsV (.str (condsText sr sch (c0 :: cs))) ct d =
+      (.ret .none, some (srObj clsV (constV (.str (['('] ++ condsText sr sch (c0 :: cs) ++ [')']))) (.dict (initOps sch d o)) ct
+        (.list (P.listOf (.obj "set" (P.tablesUsed (clauseV sr sch (.kw (c0 :: cs))) dbn)) ++ [.str sch.table]))))
+    ∧ Rep sr sch (clauseV sr sch (.kw (c0 :: cs))) (initOps sch d o)
+        { clause := .kw (c0 :: cs), order := mungeAll sch o, reversed := truthyOpt d kReversed,
+          distinct := truthyOpt d kDistinct } :=
+  ⟨init_translated_gen sr sch P fnRec cm cv hm _ _ (.text (c0 :: cs) (condsText_ne_all sr sch c0 cs)) ct hct d o conn dbn
+      ho hl hgc hdb, initOps_rep sr sch (some (.kw (c0 :: cs))) d o⟩
+
 /-- `_getConnection` as translated. -/
 theorem C11_translated_getConnection (c : String) (fs : List (String × PyQ.Val)) (d : List (Str × PyQ.Val))
     (hops : aget "ops" fs = some (.dict d)) (hsc : aget "sourceClass" fs = some clsV) :
